@@ -268,6 +268,40 @@ CapsOnSpine(P) ==
     \A n \in DOMAIN occ :
         (\A m \in 1..(n - 1) : occ[m][1] # occ[n][1]) => occ[n][2]
 
+(***************************************************************************)
+(* Captures whose first occurrence lies inside the argument of a $not.      *)
+(* The statements do not say whether such a name is still bound after the  *)
+(* $not.  Under every reading, though, a reported match is a match of the  *)
+(* reading in which the name is LOCAL to the argument (MI: a $not returns   *)
+(* the environment unchanged): a reading in which the binding leaks only    *)
+(* adds equality constraints.  So for these patterns the semantics is a     *)
+(* necessary condition on reported matches ("sound only"), not a complete  *)
+(* description.  SoundScope: every name is either defined on the spine, or  *)
+(* first occurs on the spine of ONE $not argument (itself on the spine),    *)
+(* occurs in no other $not, and what occurs outside starts on the spine.    *)
+(***************************************************************************)
+RECURSIVE CapOccN(_, _, _, _)
+CapOccN(p, mode, nid, path) ==      \* sequence of <<name, "spine" | "not" | "off", id of the enclosing $not>>
+    LET here  == IF p.lo = 1 /\ p.hi = 1 THEN mode ELSE "off"
+        enter == here = "spine" /\ p.k \in {"not", "onot"}
+        sub   == IF enter THEN "not"
+                 ELSE IF here # "off" /\ p.k \in {"and", "ins", "oand", "deref", "dfield"} THEN here ELSE "off"
+        subid == IF enter THEN path ELSE nid
+        RECURSIVE Cat(_)
+        Cat(n) == IF n > Len(p.kids) THEN <<>> ELSE CapOccN(p.kids[n], sub, subid, Append(path, n)) \o Cat(n + 1)
+    IN (IF p.k \in {"icap", "ocap", "rcap", "fcap", "frcap"} THEN << <<p.name, here, nid>> >> ELSE <<>>) \o Cat(1)
+MinOf(S) == CHOOSE x \in S : \A y \in S : x <= y
+SoundScope(P) ==
+    LET occ == CapOccN(P, "spine", <<0>>, <<>>)
+        Idx(nm) == { n \in DOMAIN occ : occ[n][1] = nm }
+    IN \A nm \in { occ[n][1] : n \in DOMAIN occ } :
+         LET f   == MinOf(Idx(nm))
+             out == { n \in Idx(nm) : occ[n][3] = <<0>> }
+         IN IF occ[f][3] = <<0>> THEN occ[f][2] = "spine"
+            ELSE /\ occ[f][2] = "not"
+                 /\ \A n \in Idx(nm) : occ[n][3] \in {<<0>>, occ[f][3]}
+                 /\ (out = {} \/ occ[MinOf(out)][2] = "spine")
+
 RECURSIVE HasKind(_, _)
 HasKind(p, ks) == p.k \in ks \/ \E n \in DOMAIN p.kids : HasKind(p.kids[n], ks)
 
